@@ -71,6 +71,22 @@ func Generated() []Prog {
 		"hm = {a: 1}\ngm = {b: 2}\nhm.size\nhm.merge!(gm) { |k, x, y| dbtp x }\nhm.size\nhm.each { |kk, vv| dbtp vv }\n",
 		"ar = [1, \"s\"]\nar.size\nar.nothing_here { |q| dbtp q }\nar.size\nar.each_with_index { |e, i| dbtp e }\n",
 	)
+	extra = append(extra,
+		// several ancestors (superclass, two included modules, an extended module) that define the same method
+		// with different result types: which definition wins depends on the ancestor order
+		"module Walker\n  def move\n    1\n  end\nend\nmodule Runner\n  def move\n    \"fast\"\n  end\nend\nclass Animal\n  def move\n    1.5\n  end\n\n  def rest\n    nil\n  end\nend\nclass Hound < Animal\n  include Walker\n  include Runner\nend\nclass Kitten < Animal\n  include Walker\nend\nclass Trout < Animal\n  extend Runner\n  extend Walker\nend\nhd = Hound.new\ndbtp hd.move\nhd.move.zork\ndbtp Kitten.new.move\ndbtp Trout.move\ndbtp Trout.new.move\nhd.rest.zork\n",
+		// a call chain three methods deep whose innermost parameter is also reached directly with another type,
+		// direct site first and chain first
+		"def inner(a)\n  dbtp a\n  a\nend\ndef direct_use\n  inner(1)\nend\ndef mid(q)\n  inner(q)\nend\ndef outer(r)\n  mid(r)\nend\ndbtp outer(\"s\")\ndbtp direct_use\n",
+		"def inner(a)\n  dbtp a\n  a\nend\ndef mid(q)\n  inner(q)\nend\ndef outer(r)\n  mid(r)\nend\ndef far(s)\n  outer(s)\nend\ndbtp far(1.5)\ndbtp inner(:sym)\ndbtp mid(nil)\n",
+		// multiple assignment: swap, value list, array right-hand side, splat target; parameters with defaults as targets
+		"def swap_plain\n  sa, sb = sb, sa\n  sa\nend\ndef order(first, second = nil)\n  first, second = second, first\n  second\nend\ndbtp order(1, \"s\")\ndef kwswap(ka, kb: 1)\n  ka, kb = kb, ka\n  kb\nend\ndbtp kwswap(2, kb: \"x\")\nma, mb = 1, \"s\"\ndbtp mb\nmc, md = [1.5, :q]\ndbtp mc\nme, *mf = 1, 2, 3\ndbtp mf\n",
+		// top-level redefinitions and re-bindings: the last definition / binding before a use wins
+		"def label\n  1\nend\nmark = 1\ndef label\n  \"s\"\nend\nmark = \"s\"\ndef label\n  2.5\nend\nmark = 2.5\ndbtp label\ndbtp mark\nlabel.upcase\nmark.upcase\n",
+		"class Gauge\n  def read\n    1\n  end\nend\nclass Gauge\n  def read\n    \"s\"\n  end\nend\ngg = Gauge.new\ndbtp gg.read\ngg.read.zork\n",
+		// a module with `class << self`, a private section inside it, and calls of both methods
+		"module Util\n  class << self\n    def helper(v)\n      v\n    end\n\n    private\n\n    def hidden\n      1\n    end\n  end\n\n  def self.plain\n    \"s\"\n  end\nend\ndbtp Util.helper(1)\ndbtp Util.plain\nUtil.hidden\nUtil.zork\n",
+	)
 	for i, s := range extra {
 		out = append(out, Prog{Name: fmt.Sprintf("./g_extra_%d.rb", i), Src: s})
 	}
@@ -112,6 +128,29 @@ func TiePrograms() []Prog {
 		"x1 = Outer::Inner::Report.new\nx2 = Outer::Report.new\nx1.title\nx2.title\n"
 	samesig := "class Alpha\n  def run(a)\n    a\n  end\nend\nclass Beta\n  def run(a)\n    a\n  end\nend\nmodule Gamma\n  def self.run(a)\n    a\n  end\nend\ndef run(a)\n  a\nend\nAlpha.new.run(1)\nBeta.new.run(1)\nGamma.run(1)\nrun(1)\n"
 	return []Prog{{Name: "./g_tie_0.rb", Src: two}, {Name: "./g_tie_1.rb", Src: three}, {Name: "./g_tie_2.rb", Src: nested}, {Name: "./g_tie_3.rb", Src: samesig}}
+}
+
+// OddLiteralPrograms place a string literal that spans two lines wherever ti quotes source text in a
+// message or a record: as a method name after a dot, as a def name, as the argument of attr_*, include,
+// a call, an index, a hash key, a symbol, a receiver. Used by C01/C04 (every printed line is well formed).
+func OddLiteralPrograms() []Prog {
+	ml := "\"na\nme\""
+	srcs := []string{
+		"class Kq\n  attr_accessor " + ml + "\n  attr_reader " + ml + "\nend\nKq.new\n",
+		"xq = 1\nxq." + ml + "\nxq.foo\n",
+		"class Kq\n  def " + ml + "\n    1\n  end\nend\nkq = Kq.new\nkq.zork\n",
+		"class Kq\n  def self." + ml + "\n    1\n  end\n  include " + ml + "\nend\nKq.zork\n",
+		"hq = {" + ml + " => 1}\nhq[" + ml + "]\nhq.fetch(" + ml + ").zork\n",
+		"sq = " + ml + "\nsq.zork\n" + ml + ".zork\n1.zork(" + ml + ")\n",
+		"def mq(a)\n  a\nend\nmq(" + ml + ", 2)\nmq " + ml + "\nKq." + ml + "\n",
+		"yq = :" + ml + "\nyq.zork\nrequire " + ml + "\nraise " + ml + "\n",
+		"case " + ml + "\nwhen " + ml + "\n  1.zork\nend\nzq = " + ml + " + 1\n",
+	}
+	var out []Prog
+	for i, s := range srcs {
+		out = append(out, Prog{Name: fmt.Sprintf("./g_odd_%d.rb", i), Src: s})
+	}
+	return out
 }
 
 func indent(s string, n int) string {
